@@ -25,6 +25,8 @@ def sh(cmd, **kw):
 
 
 def demo(root):
+    if not os.path.exists(os.path.join(d, "demo.py")):      # a behaviour-preserving change has no demonstration
+        return None, "no demo.py"
     env = dict(os.environ, PYTHONPATH=root, HOLPY_ROOT=root, PYTHONHASHSEED="0")
     p = subprocess.run(["/venv/bin/python", os.path.join(d, "demo.py")], cwd=root, env=env, capture_output=True, text=True, timeout=1800)
     return p.returncode, (p.stdout + p.stderr)[-400:]
@@ -67,6 +69,8 @@ try:
             clauses = sorted({m.group(1) for ln in viol for m in [re.search(r"# clause (\w+)", ln)] if m})
             res["checks"][c] = {"rc": p.returncode, "violations": len(viol), "clauses": clauses, "first": viol[:2],
                                 "tail": p.stdout.splitlines()[-1:] , "wall": round(time.time() - t0)}
+            if p.returncode not in (0, 1):
+                res["checks"][c]["err"] = (p.stdout + p.stderr)[-1500:]
 finally:
     sh("git -C /repo worktree remove --force %s" % wt)
     shutil.rmtree(wt, ignore_errors=True)
